@@ -11,6 +11,8 @@ META = {
 def run(ctx):
     import trancommon
     trancommon.exhaustive(ctx, "C07")
-    n = 6 if ctx.thorough() else 2
-    dbcommon.run_db(ctx, "tran", n, "C07")
+    # (a) op-level interleavings of 2-3 colliding transactions driven from one goroutine
+    dbcommon.run_db(ctx, "tranpairs", 12 if ctx.thorough() else 3, "C07p")
+    # (b) free-running concurrent clients against the real checker/merger/persist goroutines
+    dbcommon.run_db(ctx, "tran", 6 if ctx.thorough() else 1, "C07c")
     ctx.assumptions += dbcommon.ASSUME
